@@ -26,7 +26,7 @@ func register(id string, p Prop) {
 var extraExplain = map[string]string{
 	"C01": "R1.1 value-without-type: every operand slot taken from the stack (Pop/Get/GetArgs element, Call(args) of builtin instructions) whose Val goes into emitted syntax has its Type read, or is handed to a function whose summary inspects that parameter, on every acyclic path through the emission (helpers export the obligation through per-parameter summaries; slices handed over whole need an exact-arity test); R1.2 the verdict of every checker call is consumed (not a statement, not assigned to blank, read afterwards); R1.3 every path that jumps to the conversion node passes the true edge of len(args)==1 and ConvertibleTo (fall-through paths: known findings); R1.5 loops that apply a checker to the elements of an operand list reach the check on every iteration that continues; R1.6 re-use of an already declared object by := checks the new value against the existing type on every normal path; R1.7 restoreArgs restores unconditionally.",
 	"C02": "R2.3 the index and range container tables accept the same pointer-to-array operands; R2.4 ComparableTo asks assignability in both directions, each with the operand of its source side, and the untyped arms pair each untyped operand with its own basic type; R2.5 a conversion to a receive-only channel or pointer type is parenthesised.",
-	"C03": "R3.3 a branch that rewrites an expression into pointer form also builds the pointer type it reports; R3.4 ConstDefs.NewAt overwrites both remembered repetition fields (callback, type) from its parameters on every normal path; R3.5 the receiver parameter of a method-expression signature is data-dependent on the type the expression was written on, on every path of methodSigOf.",
+	"C03": "R3.3 a branch that rewrites an expression into pointer form also builds the pointer type it reports; R3.4 ConstDefs.NewAt overwrites both remembered repetition fields (callback, type) from its parameters on every normal path; R3.5 the receiver parameter of a method-expression signature is data-dependent on the type the expression was written on, on every path of methodSigOf; R3.6 every site that sets the call matcher's untyped-result flag sits under a test of the operands' untypedness (all operands; the left one alone only under an operator-class table test, as for shifts) - an operation with a typed constant operand yields a typed constant (one known finding: the flag is set whenever the operation could be folded).",
 	"C04": "R4.6 the basic-kind classifiers isUnsigned / isNumeric, evaluated for all basic kinds by constant arithmetic on their Kind()/Info() expression, agree with go/types' flags; R4.7 a field overridden for the duration of a call and restored by a deferred function is restored with a value read before the override (iota context).",
 	"C05": "R5.4 mutual assignability in ComparableTo in both directions with the right operand each, untyped arms pair operand/type correctly (symmetry).",
 	"C06": "R6.2 also: restoreArgs restores every saved field unconditionally (a guard is tolerated only if it is a disjunction of inequality tests naming every restored field); R6.5 the check loops of the functions that receive a candidate's argument list (matchFuncArgs, matchVariadicArgs) cover every element.",
